@@ -270,6 +270,7 @@ def step (st : St) (line : String) : St × String :=
     | some k => (st, hexOpt ((Alg.ofOrd k).bind algStr))
     | none => (st, "badop")
   | ["echo"] => (st, "echo")
+  | ["clistatus", n] => (st, toString (Jwt.Cli.verifyStatus (n.toNat?.getD 0)))
   | ["clock", t] => ({ st with now := t.toInt?.getD 0 }, "ok")
   -- oracle tables
   | ["oracle", "load", h, j] => ({ st with orc := { st.orc with load := st.orc.load.insert h (if j = "none" then none else dec j) } }, "ok")
